@@ -24,10 +24,10 @@ VERIF = os.path.dirname(os.path.dirname(os.path.abspath(__file__)))
 sys.path.insert(0, os.path.join(VERIF, "lib"))
 import weave  # noqa: E402
 
-BUILD = os.path.join(VERIF, "build")
-SLICE = os.path.join(VERIF, "kani", "slice")
+BUILD = weave.BUILD
+SLICE = os.path.join(weave.UNIT, "slice")
 HARN = os.path.join(VERIF, "kani", "harness")  # registry is read from the sources; builds use the snapshot
-EVID = os.path.join(VERIF, "evidence")
+EVID = os.environ.get("VERIF_EVIDENCE") or os.path.join(VERIF, "evidence")
 KNOWN = os.path.join(VERIF, "known_findings.txt")
 ENV = dict(os.environ, CARGO_NET_OFFLINE="true", CARGO_TERM_COLOR="never")
 ENV.pop("RUSTFLAGS", None)
